@@ -216,7 +216,7 @@ func matchFinding(f Finding, prop string, v *sx.Violation) bool {
 func (r *Report) finish() int {
 	prop := r.opt.Property
 	findings := loadFindings()
-	outDir := filepath.Join(VerifDir, "out", prop)
+	outDir := filepath.Join(scratchRoot(), prop)
 	os.MkdirAll(outDir, 0o755)
 	nViol := 0
 	knownPrinted := map[string]bool{}
@@ -448,9 +448,13 @@ func (r *Report) writeEvidence(nViol int) {
 			"outside_claim":                 outside,
 		},
 	}
-	os.MkdirAll(filepath.Join(VerifDir, "evidence"), 0o755)
+	evDir := filepath.Join(VerifDir, "evidence")
+	if os.Getenv("VERIF_REPO") != "" { // development run against a scratch tree: keep the registered evidence untouched
+		evDir = filepath.Join(scratchRoot(), "_evidence")
+	}
+	os.MkdirAll(evDir, 0o755)
 	b, _ := json.MarshalIndent(ev, "", " ")
-	os.WriteFile(filepath.Join(VerifDir, "evidence", prop+".json"), b, 0o644)
+	os.WriteFile(filepath.Join(evDir, prop+".json"), b, 0o644)
 }
 
 func round2(f float64) float64 { return float64(int(f*100+0.5)) / 100 }
@@ -459,4 +463,12 @@ func max1(n int) int {
 		return 1
 	}
 	return n
+}
+
+// scratchRoot is where replay files go: /verif/out, or a per-tree directory for development runs.
+func scratchRoot() string {
+	if d := os.Getenv("VERIF_REPO"); d != "" {
+		return filepath.Join(VerifDir, "out", "_dev", filepath.Base(d))
+	}
+	return filepath.Join(VerifDir, "out")
 }
